@@ -192,6 +192,23 @@ for _getter, _conv, _vtype in (("getint", "int", "int"), ("getfloat", "float", "
                      "implies(%s and not is_a(%s, %s), result == conv_result(%s, %s))" % (NPRESENT, NVALUE, _vtype, _conv, NVALUE),
              })
 
+WANTED = "(convert if valuetype is None else valuetype)"
+contract(U + "UserDataNamespace.getas", props=P,
+         params={"self": "ref:UserDataNamespace", "convert": "any", "name": "str", "default": "any", "valuetype": "any"},
+         self_classes=["UserDataNamespace"], result="any",
+         requires={"the-converter-is-callable": "uf_bool('is_callable', convert)"},
+         raises=[Raises("ValueError", when="%s and not is_a(%s, %s) and conv_fails(convert, %s)" % (NPRESENT, NVALUE, WANTED, NVALUE),
+                        label="unconvertible-text-of-a-present-scoped-name")],
+         ensures={
+             "a-missing-scoped-name-yields-the-given-default": "implies(not %s, result == default)" % NPRESENT,
+             "a-present-value-of-the-wanted-type-is-kept": "implies(%s and is_a(%s, %s), result == %s)" % (NPRESENT, NVALUE, WANTED, NVALUE),
+             "any-other-present-value-is-converted":
+                 "implies(%s and not is_a(%s, %s), result == conv_result(convert, %s))" % (NPRESENT, NVALUE, WANTED, NVALUE),
+         })
+contract(U + "UserDataNamespace.get", props=P, params={"self": "ref:UserDataNamespace", "name": "str", "default": "any"},
+         self_classes=["UserDataNamespace"], result="any", pure=True, callsites={"self.data.get": "abs:UserData.get"},
+         ensures={"value-under-the-scoped-name-else-the-default": "result == ite(%s, %s, default)" % (NPRESENT, NVALUE)})
+
 # -- pyproject.toml reader: which key each file option is stored under --------------------------------------------------
 oracle("toml_data", ["val"], "val")
 contract("abs:file.enter", trusted=True, pos_params=[], pure=True, doc="open(path, 'rb').__enter__")
@@ -294,7 +311,7 @@ prop("C20", level="other", bounded=[],
                  "the typed getters getint / getfloat / getbool are checked as callers of that contract (converter int / float / "
                  "parse_bool, wanted type int / float / bool, the caller's default passed through); "
                  "UserDataNamespace.make_scoped gives '<namespace>.<name>' (the bare name without a namespace) and the namespace "
-                 "getters are the same getters of the underlying user data under that scoped name; "
+                 "getters (get, getas, getint, getfloat, getbool) are the same getters of the underlying user data under that scoped name; "
                  "read_configparser and read_toml_config never store file tags under 'tags' (they go to config_tags, so --tags "
                  "on the command line wins) and return a new dictionary. Bounded: the option table itself (every option x {absent, file, command "
                  "line, both}), configparser / argparse, the values read_toml_config stores, format/outfiles coupling",
